@@ -4,6 +4,7 @@ package main
 
 import (
 	"fmt"
+	"go/token"
 	"strings"
 
 	"golang.org/x/tools/go/ssa"
@@ -118,20 +119,62 @@ func (m *Model) RunOwn(s *Sink, rule string) {
 	ac := m.Method("ast", "Program", "ApplyComponent")
 	if ac != nil {
 		okSkip := false
+		// "x.Block == nil" is known for the use x that receives the program: as a branch fact dominating the store, or
+		// as the postcondition of the helper that selected x (every non-nil result it returns is returned under that fact)
+		blockNilFact := func(b *ssa.BasicBlock, x ssa.Value) bool {
+			xr, xp, xok := pathOf(stripIface(x))
+			for _, f := range expandFacts(factsAt(b)) {
+				bo, ok := f.Cond.(*ssa.BinOp)
+				if !ok || !isNilConst(bo.Y) || (bo.Op != token.EQL && bo.Op != token.NEQ) {
+					continue
+				}
+				if (bo.Op == token.NEQ) == f.Holds {
+					continue // Block != nil
+				}
+				br, bp, bok := pathOf(stripIface(bo.X))
+				if !bok || !strings.HasSuffix(bp, ".Block") {
+					continue
+				}
+				if ld, isLd := bo.X.(*ssa.UnOp); isLd {
+					if fa, isFA := ld.X.(*ssa.FieldAddr); isFA && fa.X == x {
+						return true
+					}
+				}
+				if xok && br == xr && bp == xp+".Block" {
+					return true
+				}
+			}
+			return false
+		}
 		for _, b := range ac.Blocks {
 			for _, in := range b.Instrs {
-				if st, ok := in.(*ssa.Store); ok {
-					if fa, ok := st.Addr.(*ssa.FieldAddr); ok && fieldName(fa.X.Type(), fa.Field) == "Block" {
-						a := m.NewArith(ac)
-						for _, f := range expandFacts(factsAt(b)) {
-							if bo, ok := f.Cond.(*ssa.BinOp); ok && strings.HasSuffix(fieldPathOf(bo.X), ".Block") && isNilConst(bo.Y) {
-								_ = a
-								// comp.Block != nil is false  <=> Block == nil holds
-								if (bo.Op.String() == "!=") != f.Holds {
-									okSkip = true
-								}
-							}
+				st, ok := in.(*ssa.Store)
+				if !ok {
+					continue
+				}
+				fa, ok := st.Addr.(*ssa.FieldAddr)
+				if !ok || fieldName(fa.X.Type(), fa.Field) != "Block" {
+					continue
+				}
+				if blockNilFact(b, fa.X) {
+					okSkip = true
+					continue
+				}
+				if c, isC := fa.X.(*ssa.Call); isC && c.Call.StaticCallee() != nil && m.InModule(c.Call.StaticCallee()) && c.Call.StaticCallee().Blocks != nil {
+					h := c.Call.StaticCallee()
+					all, n := true, 0
+					for _, hb := range h.Blocks {
+						ret, isRet := hb.Instrs[len(hb.Instrs)-1].(*ssa.Return)
+						if !isRet || len(ret.Results) != 1 || isNilConst(ret.Results[0]) {
+							continue
 						}
+						n++
+						if !blockNilFact(hb, ret.Results[0]) {
+							all = false
+						}
+					}
+					if all && n > 0 {
+						okSkip = true
 					}
 				}
 			}
